@@ -337,7 +337,12 @@ pub fn run(a: &Args) {
                 4 => gt::Geometry::MultiLineString(gt::MultiLineString::new((0..1 + r.below(4)).map(|_| { let rr = rand_ring_n(&mut r, 2, 3); ls(&c, &rr) }).collect())),
                 5 | 6 => {
                     let ext = rand_ring_n(&mut r, 3, 3);
-                    let holes: Vec<gt::LineString<f64>> = (0..r.below(3)).map(|_| { let rr = rand_ring(&mut r, 3); ls(&c, &rr) }).collect();
+                    let mut holes: Vec<gt::LineString<f64>> = (0..r.below(3)).map(|_| { let rr = rand_ring(&mut r, 3); ls(&c, &rr) }).collect();
+                    // every fourth polygon: one of the holes is the exterior itself (degenerate, and still a ring to carry over)
+                    if r.below(4) == 0 {
+                        let at = r.below(holes.len() + 1);
+                        holes.insert(at, ls(&c, &ext));
+                    }
                     gt::Geometry::Polygon(gt::Polygon::new(ls(&c, &ext), holes))
                 }
                 7 | 8 => {
